@@ -1,27 +1,78 @@
-lib/Bytes.vo lib/Bytes.glob lib/Bytes.v.beautified lib/Bytes.required_vo: lib/Bytes.v 
-lib/Bytes.vio: lib/Bytes.v 
-lib/Bytes.vos lib/Bytes.vok lib/Bytes.required_vos: lib/Bytes.v 
-lib/Utf8.vo lib/Utf8.glob lib/Utf8.v.beautified lib/Utf8.required_vo: lib/Utf8.v lib/Bytes.vo
-lib/Utf8.vio: lib/Utf8.v lib/Bytes.vio
-lib/Utf8.vos lib/Utf8.vok lib/Utf8.required_vos: lib/Utf8.v lib/Bytes.vos
 gen/Facts_HTMLEscape.vo gen/Facts_HTMLEscape.glob gen/Facts_HTMLEscape.v.beautified gen/Facts_HTMLEscape.required_vo: gen/Facts_HTMLEscape.v 
 gen/Facts_HTMLEscape.vio: gen/Facts_HTMLEscape.v 
 gen/Facts_HTMLEscape.vos gen/Facts_HTMLEscape.vok gen/Facts_HTMLEscape.required_vos: gen/Facts_HTMLEscape.v 
 gen/Facts_escapers.vo gen/Facts_escapers.glob gen/Facts_escapers.v.beautified gen/Facts_escapers.required_vo: gen/Facts_escapers.v 
 gen/Facts_escapers.vio: gen/Facts_escapers.v 
 gen/Facts_escapers.vos gen/Facts_escapers.vok gen/Facts_escapers.required_vos: gen/Facts_escapers.v 
+gen/Facts_show.vo gen/Facts_show.glob gen/Facts_show.v.beautified gen/Facts_show.required_vo: gen/Facts_show.v lib/ShowTree.vo
+gen/Facts_show.vio: gen/Facts_show.v lib/ShowTree.vio
+gen/Facts_show.vos gen/Facts_show.vok gen/Facts_show.required_vos: gen/Facts_show.v lib/ShowTree.vos
+lib/Bytes.vo lib/Bytes.glob lib/Bytes.v.beautified lib/Bytes.required_vo: lib/Bytes.v 
+lib/Bytes.vio: lib/Bytes.v 
+lib/Bytes.vos lib/Bytes.vok lib/Bytes.required_vos: lib/Bytes.v 
+lib/ShowTree.vo lib/ShowTree.glob lib/ShowTree.v.beautified lib/ShowTree.required_vo: lib/ShowTree.v 
+lib/ShowTree.vio: lib/ShowTree.v 
+lib/ShowTree.vos lib/ShowTree.vok lib/ShowTree.required_vos: lib/ShowTree.v 
+lib/Utf8.vo lib/Utf8.glob lib/Utf8.v.beautified lib/Utf8.required_vo: lib/Utf8.v lib/Bytes.vo
+lib/Utf8.vio: lib/Utf8.v lib/Bytes.vio
+lib/Utf8.vos lib/Utf8.vok lib/Utf8.required_vos: lib/Utf8.v lib/Bytes.vos
 model/HTMLEscapeM.vo model/HTMLEscapeM.glob model/HTMLEscapeM.v.beautified model/HTMLEscapeM.required_vo: model/HTMLEscapeM.v lib/Bytes.vo gen/Facts_HTMLEscape.vo
 model/HTMLEscapeM.vio: model/HTMLEscapeM.v lib/Bytes.vio gen/Facts_HTMLEscape.vio
 model/HTMLEscapeM.vos model/HTMLEscapeM.vok model/HTMLEscapeM.required_vos: model/HTMLEscapeM.v lib/Bytes.vos gen/Facts_HTMLEscape.vos
 model/HtmlDecode.vo model/HtmlDecode.glob model/HtmlDecode.v.beautified model/HtmlDecode.required_vo: model/HtmlDecode.v lib/Bytes.vo lib/Utf8.vo
 model/HtmlDecode.vio: model/HtmlDecode.v lib/Bytes.vio lib/Utf8.vio
 model/HtmlDecode.vos model/HtmlDecode.vok model/HtmlDecode.required_vos: model/HtmlDecode.v lib/Bytes.vos lib/Utf8.vos
+model/Json.vo model/Json.glob model/Json.v.beautified model/Json.required_vo: model/Json.v lib/Bytes.vo
+model/Json.vio: model/Json.v lib/Bytes.vio
+model/Json.vos model/Json.vok model/Json.required_vos: model/Json.v lib/Bytes.vos
+model/ShowJsonM.vo model/ShowJsonM.glob model/ShowJsonM.v.beautified model/ShowJsonM.required_vo: model/ShowJsonM.v lib/Bytes.vo lib/ShowTree.vo gen/Facts_show.vo model/ShowTypesM.vo
+model/ShowJsonM.vio: model/ShowJsonM.v lib/Bytes.vio lib/ShowTree.vio gen/Facts_show.vio model/ShowTypesM.vio
+model/ShowJsonM.vos model/ShowJsonM.vok model/ShowJsonM.required_vos: model/ShowJsonM.v lib/Bytes.vos lib/ShowTree.vos gen/Facts_show.vos model/ShowTypesM.vos
+model/ShowLeavesM.vo model/ShowLeavesM.glob model/ShowLeavesM.v.beautified model/ShowLeavesM.required_vo: model/ShowLeavesM.v lib/Bytes.vo lib/ShowTree.vo gen/Facts_show.vo gen/Facts_escapers.vo model/ShowTypesM.vo model/ShowJsonM.vo
+model/ShowLeavesM.vio: model/ShowLeavesM.v lib/Bytes.vio lib/ShowTree.vio gen/Facts_show.vio gen/Facts_escapers.vio model/ShowTypesM.vio model/ShowJsonM.vio
+model/ShowLeavesM.vos model/ShowLeavesM.vok model/ShowLeavesM.required_vos: model/ShowLeavesM.v lib/Bytes.vos lib/ShowTree.vos gen/Facts_show.vos gen/Facts_escapers.vos model/ShowTypesM.vos model/ShowJsonM.vos
+model/ShowSpecM.vo model/ShowSpecM.glob model/ShowSpecM.v.beautified model/ShowSpecM.required_vo: model/ShowSpecM.v lib/Bytes.vo lib/ShowTree.vo gen/Facts_show.vo model/ShowTypesM.vo model/ShowJsonM.vo model/ShowLeavesM.vo model/Json.vo
+model/ShowSpecM.vio: model/ShowSpecM.v lib/Bytes.vio lib/ShowTree.vio gen/Facts_show.vio model/ShowTypesM.vio model/ShowJsonM.vio model/ShowLeavesM.vio model/Json.vio
+model/ShowSpecM.vos model/ShowSpecM.vok model/ShowSpecM.required_vos: model/ShowSpecM.v lib/Bytes.vos lib/ShowTree.vos gen/Facts_show.vos model/ShowTypesM.vos model/ShowJsonM.vos model/ShowLeavesM.vos model/Json.vos
+model/ShowTypesM.vo model/ShowTypesM.glob model/ShowTypesM.v.beautified model/ShowTypesM.required_vo: model/ShowTypesM.v lib/Bytes.vo lib/ShowTree.vo gen/Facts_show.vo
+model/ShowTypesM.vio: model/ShowTypesM.v lib/Bytes.vio lib/ShowTree.vio gen/Facts_show.vio
+model/ShowTypesM.vos model/ShowTypesM.vok model/ShowTypesM.required_vos: model/ShowTypesM.v lib/Bytes.vos lib/ShowTree.vos gen/Facts_show.vos
 proofs/HTMLEscape_proofs.vo proofs/HTMLEscape_proofs.glob proofs/HTMLEscape_proofs.v.beautified proofs/HTMLEscape_proofs.required_vo: proofs/HTMLEscape_proofs.v lib/Bytes.vo gen/Facts_HTMLEscape.vo model/HTMLEscapeM.vo lib/Utf8.vo model/HtmlDecode.vo proofs/HtmlDecode_proofs.vo
 proofs/HTMLEscape_proofs.vio: proofs/HTMLEscape_proofs.v lib/Bytes.vio gen/Facts_HTMLEscape.vio model/HTMLEscapeM.vio lib/Utf8.vio model/HtmlDecode.vio proofs/HtmlDecode_proofs.vio
 proofs/HTMLEscape_proofs.vos proofs/HTMLEscape_proofs.vok proofs/HTMLEscape_proofs.required_vos: proofs/HTMLEscape_proofs.v lib/Bytes.vos gen/Facts_HTMLEscape.vos model/HTMLEscapeM.vos lib/Utf8.vos model/HtmlDecode.vos proofs/HtmlDecode_proofs.vos
 proofs/HtmlDecode_proofs.vo proofs/HtmlDecode_proofs.glob proofs/HtmlDecode_proofs.v.beautified proofs/HtmlDecode_proofs.required_vo: proofs/HtmlDecode_proofs.v lib/Bytes.vo lib/Utf8.vo model/HtmlDecode.vo
 proofs/HtmlDecode_proofs.vio: proofs/HtmlDecode_proofs.v lib/Bytes.vio lib/Utf8.vio model/HtmlDecode.vio
 proofs/HtmlDecode_proofs.vos proofs/HtmlDecode_proofs.vok proofs/HtmlDecode_proofs.required_vos: proofs/HtmlDecode_proofs.v lib/Bytes.vos lib/Utf8.vos model/HtmlDecode.vos
+proofs/Json_proofs.vo proofs/Json_proofs.glob proofs/Json_proofs.v.beautified proofs/Json_proofs.required_vo: proofs/Json_proofs.v lib/Bytes.vo model/Json.vo
+proofs/Json_proofs.vio: proofs/Json_proofs.v lib/Bytes.vio model/Json.vio
+proofs/Json_proofs.vos proofs/Json_proofs.vok proofs/Json_proofs.required_vos: proofs/Json_proofs.v lib/Bytes.vos model/Json.vos
+proofs/ShowJson_proofs.vo proofs/ShowJson_proofs.glob proofs/ShowJson_proofs.v.beautified proofs/ShowJson_proofs.required_vo: proofs/ShowJson_proofs.v lib/Bytes.vo lib/ShowTree.vo gen/Facts_show.vo model/ShowTypesM.vo model/ShowJsonM.vo model/ShowLeavesM.vo model/Json.vo proofs/ShowTree_proofs.vo proofs/Show_flat_proofs.vo proofs/Show_js_checks.vo proofs/Show_js_proofs.vo proofs/Show_c09_proofs.vo proofs/Json_proofs.vo proofs/ShowLeaves_proofs.vo
+proofs/ShowJson_proofs.vio: proofs/ShowJson_proofs.v lib/Bytes.vio lib/ShowTree.vio gen/Facts_show.vio model/ShowTypesM.vio model/ShowJsonM.vio model/ShowLeavesM.vio model/Json.vio proofs/ShowTree_proofs.vio proofs/Show_flat_proofs.vio proofs/Show_js_checks.vio proofs/Show_js_proofs.vio proofs/Show_c09_proofs.vio proofs/Json_proofs.vio proofs/ShowLeaves_proofs.vio
+proofs/ShowJson_proofs.vos proofs/ShowJson_proofs.vok proofs/ShowJson_proofs.required_vos: proofs/ShowJson_proofs.v lib/Bytes.vos lib/ShowTree.vos gen/Facts_show.vos model/ShowTypesM.vos model/ShowJsonM.vos model/ShowLeavesM.vos model/Json.vos proofs/ShowTree_proofs.vos proofs/Show_flat_proofs.vos proofs/Show_js_checks.vos proofs/Show_js_proofs.vos proofs/Show_c09_proofs.vos proofs/Json_proofs.vos proofs/ShowLeaves_proofs.vos
+proofs/ShowLeaves_proofs.vo proofs/ShowLeaves_proofs.glob proofs/ShowLeaves_proofs.v.beautified proofs/ShowLeaves_proofs.required_vo: proofs/ShowLeaves_proofs.v lib/Bytes.vo gen/Facts_escapers.vo lib/ShowTree.vo gen/Facts_show.vo model/ShowTypesM.vo model/ShowJsonM.vo model/ShowLeavesM.vo model/Json.vo proofs/Json_proofs.vo
+proofs/ShowLeaves_proofs.vio: proofs/ShowLeaves_proofs.v lib/Bytes.vio gen/Facts_escapers.vio lib/ShowTree.vio gen/Facts_show.vio model/ShowTypesM.vio model/ShowJsonM.vio model/ShowLeavesM.vio model/Json.vio proofs/Json_proofs.vio
+proofs/ShowLeaves_proofs.vos proofs/ShowLeaves_proofs.vok proofs/ShowLeaves_proofs.required_vos: proofs/ShowLeaves_proofs.v lib/Bytes.vos gen/Facts_escapers.vos lib/ShowTree.vos gen/Facts_show.vos model/ShowTypesM.vos model/ShowJsonM.vos model/ShowLeavesM.vos model/Json.vos proofs/Json_proofs.vos
+proofs/ShowTree_proofs.vo proofs/ShowTree_proofs.glob proofs/ShowTree_proofs.v.beautified proofs/ShowTree_proofs.required_vo: proofs/ShowTree_proofs.v lib/Bytes.vo lib/ShowTree.vo
+proofs/ShowTree_proofs.vio: proofs/ShowTree_proofs.v lib/Bytes.vio lib/ShowTree.vio
+proofs/ShowTree_proofs.vos proofs/ShowTree_proofs.vok proofs/ShowTree_proofs.required_vos: proofs/ShowTree_proofs.v lib/Bytes.vos lib/ShowTree.vos
+proofs/Show_c09_proofs.vo proofs/Show_c09_proofs.glob proofs/Show_c09_proofs.v.beautified proofs/Show_c09_proofs.required_vo: proofs/Show_c09_proofs.v lib/Bytes.vo lib/ShowTree.vo gen/Facts_show.vo model/ShowTypesM.vo model/ShowJsonM.vo proofs/ShowTree_proofs.vo proofs/Show_flat_proofs.vo proofs/Show_js_checks.vo proofs/Show_js_proofs.vo
+proofs/Show_c09_proofs.vio: proofs/Show_c09_proofs.v lib/Bytes.vio lib/ShowTree.vio gen/Facts_show.vio model/ShowTypesM.vio model/ShowJsonM.vio proofs/ShowTree_proofs.vio proofs/Show_flat_proofs.vio proofs/Show_js_checks.vio proofs/Show_js_proofs.vio
+proofs/Show_c09_proofs.vos proofs/Show_c09_proofs.vok proofs/Show_c09_proofs.required_vos: proofs/Show_c09_proofs.v lib/Bytes.vos lib/ShowTree.vos gen/Facts_show.vos model/ShowTypesM.vos model/ShowJsonM.vos proofs/ShowTree_proofs.vos proofs/Show_flat_proofs.vos proofs/Show_js_checks.vos proofs/Show_js_proofs.vos
+proofs/Show_flat_proofs.vo proofs/Show_flat_proofs.glob proofs/Show_flat_proofs.v.beautified proofs/Show_flat_proofs.required_vo: proofs/Show_flat_proofs.v lib/Bytes.vo lib/ShowTree.vo gen/Facts_show.vo model/ShowTypesM.vo proofs/ShowTree_proofs.vo
+proofs/Show_flat_proofs.vio: proofs/Show_flat_proofs.v lib/Bytes.vio lib/ShowTree.vio gen/Facts_show.vio model/ShowTypesM.vio proofs/ShowTree_proofs.vio
+proofs/Show_flat_proofs.vos proofs/Show_flat_proofs.vok proofs/Show_flat_proofs.required_vos: proofs/Show_flat_proofs.v lib/Bytes.vos lib/ShowTree.vos gen/Facts_show.vos model/ShowTypesM.vos proofs/ShowTree_proofs.vos
+proofs/Show_js_checks.vo proofs/Show_js_checks.glob proofs/Show_js_checks.v.beautified proofs/Show_js_checks.required_vo: proofs/Show_js_checks.v lib/Bytes.vo lib/ShowTree.vo gen/Facts_show.vo model/ShowTypesM.vo model/ShowJsonM.vo model/ShowLeavesM.vo model/Json.vo model/ShowSpecM.vo proofs/ShowTree_proofs.vo
+proofs/Show_js_checks.vio: proofs/Show_js_checks.v lib/Bytes.vio lib/ShowTree.vio gen/Facts_show.vio model/ShowTypesM.vio model/ShowJsonM.vio model/ShowLeavesM.vio model/Json.vio model/ShowSpecM.vio proofs/ShowTree_proofs.vio
+proofs/Show_js_checks.vos proofs/Show_js_checks.vok proofs/Show_js_checks.required_vos: proofs/Show_js_checks.v lib/Bytes.vos lib/ShowTree.vos gen/Facts_show.vos model/ShowTypesM.vos model/ShowJsonM.vos model/ShowLeavesM.vos model/Json.vos model/ShowSpecM.vos proofs/ShowTree_proofs.vos
+proofs/Show_js_proofs.vo proofs/Show_js_proofs.glob proofs/Show_js_proofs.v.beautified proofs/Show_js_proofs.required_vo: proofs/Show_js_proofs.v lib/Bytes.vo lib/ShowTree.vo gen/Facts_show.vo model/ShowTypesM.vo model/ShowJsonM.vo model/ShowLeavesM.vo model/Json.vo model/ShowSpecM.vo proofs/ShowTree_proofs.vo proofs/Show_js_checks.vo
+proofs/Show_js_proofs.vio: proofs/Show_js_proofs.v lib/Bytes.vio lib/ShowTree.vio gen/Facts_show.vio model/ShowTypesM.vio model/ShowJsonM.vio model/ShowLeavesM.vio model/Json.vio model/ShowSpecM.vio proofs/ShowTree_proofs.vio proofs/Show_js_checks.vio
+proofs/Show_js_proofs.vos proofs/Show_js_proofs.vok proofs/Show_js_proofs.required_vos: proofs/Show_js_proofs.v lib/Bytes.vos lib/ShowTree.vos gen/Facts_show.vos model/ShowTypesM.vos model/ShowJsonM.vos model/ShowLeavesM.vos model/Json.vos model/ShowSpecM.vos proofs/ShowTree_proofs.vos proofs/Show_js_checks.vos
+props/C08.vo props/C08.glob props/C08.v.beautified props/C08.required_vo: props/C08.v lib/Bytes.vo lib/ShowTree.vo gen/Facts_show.vo model/ShowTypesM.vo model/ShowJsonM.vo model/ShowLeavesM.vo model/Json.vo model/ShowSpecM.vo proofs/ShowTree_proofs.vo proofs/Show_flat_proofs.vo proofs/Show_js_checks.vo proofs/Show_js_proofs.vo proofs/Show_c09_proofs.vo proofs/Json_proofs.vo proofs/ShowLeaves_proofs.vo proofs/ShowJson_proofs.vo
+props/C08.vio: props/C08.v lib/Bytes.vio lib/ShowTree.vio gen/Facts_show.vio model/ShowTypesM.vio model/ShowJsonM.vio model/ShowLeavesM.vio model/Json.vio model/ShowSpecM.vio proofs/ShowTree_proofs.vio proofs/Show_flat_proofs.vio proofs/Show_js_checks.vio proofs/Show_js_proofs.vio proofs/Show_c09_proofs.vio proofs/Json_proofs.vio proofs/ShowLeaves_proofs.vio proofs/ShowJson_proofs.vio
+props/C08.vos props/C08.vok props/C08.required_vos: props/C08.v lib/Bytes.vos lib/ShowTree.vos gen/Facts_show.vos model/ShowTypesM.vos model/ShowJsonM.vos model/ShowLeavesM.vos model/Json.vos model/ShowSpecM.vos proofs/ShowTree_proofs.vos proofs/Show_flat_proofs.vos proofs/Show_js_checks.vos proofs/Show_js_proofs.vos proofs/Show_c09_proofs.vos proofs/Json_proofs.vos proofs/ShowLeaves_proofs.vos proofs/ShowJson_proofs.vos
+props/C09.vo props/C09.glob props/C09.v.beautified props/C09.required_vo: props/C09.v lib/Bytes.vo lib/ShowTree.vo gen/Facts_show.vo model/ShowTypesM.vo model/ShowJsonM.vo proofs/ShowTree_proofs.vo proofs/Show_flat_proofs.vo proofs/Show_js_checks.vo proofs/Show_js_proofs.vo proofs/Show_c09_proofs.vo
+props/C09.vio: props/C09.v lib/Bytes.vio lib/ShowTree.vio gen/Facts_show.vio model/ShowTypesM.vio model/ShowJsonM.vio proofs/ShowTree_proofs.vio proofs/Show_flat_proofs.vio proofs/Show_js_checks.vio proofs/Show_js_proofs.vio proofs/Show_c09_proofs.vio
+props/C09.vos props/C09.vok props/C09.required_vos: props/C09.v lib/Bytes.vos lib/ShowTree.vos gen/Facts_show.vos model/ShowTypesM.vos model/ShowJsonM.vos proofs/ShowTree_proofs.vos proofs/Show_flat_proofs.vos proofs/Show_js_checks.vos proofs/Show_js_proofs.vos proofs/Show_c09_proofs.vos
 props/C24.vo props/C24.glob props/C24.v.beautified props/C24.required_vo: props/C24.v lib/Bytes.vo gen/Facts_HTMLEscape.vo model/HTMLEscapeM.vo model/HtmlDecode.vo proofs/HTMLEscape_proofs.vo
 props/C24.vio: props/C24.v lib/Bytes.vio gen/Facts_HTMLEscape.vio model/HTMLEscapeM.vio model/HtmlDecode.vio proofs/HTMLEscape_proofs.vio
 props/C24.vos props/C24.vok props/C24.required_vos: props/C24.v lib/Bytes.vos gen/Facts_HTMLEscape.vos model/HTMLEscapeM.vos model/HtmlDecode.vos proofs/HTMLEscape_proofs.vos
